@@ -43,7 +43,8 @@ Inductive scheme := Http | Https | OtherScheme.
 Definition is_https (s : scheme) : bool := match s with Https => true | _ => false end.
 
 (* errors *)
-Inductive tls_err := EAlpnAbort | EBadChain | EBadName | ENotTls | EOtherTls.   (* rustls' *)
+Inductive tls_err :=                                                    (* rustls' *)
+| EAlpnAbort | EBadChain | EBadSignature | EBadName | ENotTls | EOtherTls.
 Inductive conn_err :=
 | HttpsUriWithoutTlsSupport            (* connector.rs *)
 | H2NotNegotiated                      (* service/tls.rs, TlsError::H2NotNegotiated *)
@@ -63,7 +64,11 @@ Section Wiring.
   Variable valid_name : dname -> bool.                (* ServerName::try_from succeeds *)
 
   (* the build and the platform *)
-  Record features := { f_native_roots : bool; f_webpki_roots : bool }.
+  (* cargo features of the tonic build.  [f_tls] is [_tls-any] (tls-ring / tls-aws-lc): without
+     it the [is_https] branch of Connector::call, Endpoint::tls_config and Server::tls_config
+     do not exist *)
+  Record features := { f_tls : bool; f_native_roots : bool; f_webpki_roots : bool }.
+  Variable ca_usable : ca -> bool.                    (* the PEM yields at least one parsable certificate *)
   Variable native_certs : list ca.                    (* rustls_native_certs::load_native_certs *)
   Variable webpki_roots : list ca.                    (* webpki_roots::TLS_SERVER_ROOTS *)
 
@@ -101,6 +106,17 @@ Section Wiring.
     {| c_domain := c_domain c; c_certs := c_certs c; c_trust_anchors := c_trust_anchors c;
        c_identity := c_identity c; c_assume_http2 := b;
        c_with_native_roots := c_with_native_roots c; c_with_webpki_roots := c_with_webpki_roots c |}.
+
+  (* cfg(feature = "tls-native-roots") / cfg(feature = "tls-webpki-roots"): the setters exist
+     only in builds with the feature *)
+  Definition with_native_roots (c : ClientTlsConfig) :=
+    {| c_domain := c_domain c; c_certs := c_certs c; c_trust_anchors := c_trust_anchors c;
+       c_identity := c_identity c; c_assume_http2 := c_assume_http2 c;
+       c_with_native_roots := true; c_with_webpki_roots := c_with_webpki_roots c |}.
+  Definition with_webpki_roots (c : ClientTlsConfig) :=
+    {| c_domain := c_domain c; c_certs := c_certs c; c_trust_anchors := c_trust_anchors c;
+       c_identity := c_identity c; c_assume_http2 := c_assume_http2 c;
+       c_with_native_roots := c_with_native_roots c; c_with_webpki_roots := true |}.
 
   (* [with_enabled_roots(self)] starts from [ClientTlsConfig::new()]: [self] is dropped *)
   Definition with_enabled_roots (f : features) (_self : ClientTlsConfig) : ClientTlsConfig :=
@@ -182,25 +198,72 @@ Section Wiring.
 
   Record TlsAcceptor := { a_cert : cert; a_verifier : client_verifier; a_alpn : list proto }.
 
-  Inductive acc_result := AccPanic | AccOk (a : TlsAcceptor).
+  Inductive acc_result := AccPanic | AccErr | AccOk (a : TlsAcceptor).
 
-  (* ServerTlsConfig::tls_acceptor = TlsAcceptor::new(self.identity.as_ref().unwrap(), ..) *)
+  (* ServerTlsConfig::tls_acceptor = TlsAcceptor::new(self.identity.as_ref().unwrap(), ..).
+     A client CA that yields no parsable certificate leaves the root store empty and
+     WebPkiClientVerifier::builder(..).build()? fails (or the PEM reader fails before that) *)
   Definition tls_acceptor (s : ServerTlsConfig) : acc_result :=
     match s_identity s with
     | None => AccPanic                                (* Option::unwrap on None *)
     | Some id =>
-        let verifier :=
-          match s_client_ca_root s with
-          | None => NoClientAuth
-          | Some root =>
-              if s_client_auth_optional s then WebPki root true else WebPki root false
-          end in
-        AccOk {| a_cert := id; a_verifier := verifier; a_alpn := [ALPN_H2] |}
+        match s_client_ca_root s with
+        | None => AccOk {| a_cert := id; a_verifier := NoClientAuth; a_alpn := [ALPN_H2] |}
+        | Some root =>
+            if ca_usable root
+            then AccOk {| a_cert := id;
+                          a_verifier := if s_client_auth_optional s then WebPki root true
+                                        else WebPki root false;
+                          a_alpn := [ALPN_H2] |}
+            else AccErr
+        end
+    end.
+
+  (* ---------------------------------------------------------------- server/mod.rs: the builder *)
+  (* Server<L>: the [tls] field and, abstractly, everything else: the number of layers and the
+     list of options that were set *)
+  Record Server := { sv_tls : option TlsAcceptor; sv_layers : nat; sv_opts : list N }.
+  Definition server_builder : Server := {| sv_tls := None; sv_layers := O; sv_opts := [] |}.
+
+  Inductive build_result := BuildPanic | BuildErr | BuildOk (s : Server).
+
+  (* Server::tls_config: Server { tls: Some(acceptor), ..self } *)
+  Definition server_tls_config (s : Server) (c : ServerTlsConfig) : build_result :=
+    match tls_acceptor c with
+    | AccPanic => BuildPanic
+    | AccErr => BuildErr
+    | AccOk a => BuildOk {| sv_tls := Some a; sv_layers := sv_layers s; sv_opts := sv_opts s |}
+    end.
+  (* timeout, concurrency_limit_per_connection, the window sizes, keep-alives, max_frame_size,
+     accept_http1, trace_fn, ...: Server { <field>: v, ..self } *)
+  Definition server_set (s : Server) (opt : N) : Server :=
+    {| sv_tls := sv_tls s; sv_layers := sv_layers s; sv_opts := opt :: sv_opts s |}.
+  (* Server::layer: the struct is rebuilt field by field, [tls: self.tls] *)
+  Definition server_layer (s : Server) : Server :=
+    {| sv_tls := sv_tls s; sv_layers := S (sv_layers s); sv_opts := sv_opts s |}.
+
+  Inductive builder_op := OpSet (opt : N) | OpLayer | OpTls (c : ServerTlsConfig).
+  Definition not_tls_op (o : builder_op) : Prop :=         (* specification vocabulary *)
+    match o with OpTls _ => False | _ => True end.
+  Fixpoint server_build (s : Server) (ops : list builder_op) : build_result :=
+    match ops with
+    | [] => BuildOk s
+    | OpSet o :: r => server_build (server_set s o) r
+    | OpLayer :: r => server_build (server_layer s) r
+    | OpTls c :: r =>
+        match server_tls_config s c with
+        | BuildOk s' => server_build s' r
+        | x => x
+        end
     end.
 
   (* the peer of a channel: a plaintext listener, or a TLS listener with some rustls config
      (tonic's own acceptor has [a_alpn = [h2]]; other servers may differ) *)
   Inductive server := SPlain | STls (a : TlsAcceptor).
+
+  (* serve_with_incoming: ServerIoStream::new(incoming, self.tls) *)
+  Definition server_listener (s : Server) : server :=
+    match sv_tls s with Some a => STls a | None => SPlain end.
 
   Definition with_alpn (a : TlsAcceptor) (l : list proto) : TlsAcceptor :=
     {| a_cert := a_cert a; a_verifier := a_verifier a; a_alpn := l |}.
@@ -225,8 +288,9 @@ Section Wiring.
     end.
 
   (* ---------------------------------------------------------------- Connector::call *)
-  Definition connect_outcome (e : Endpoint) (srv : server) : conn :=
-    if is_https (e_scheme e)
+  (* the [is_https] test and the whole branch are under cfg(feature = "_tls-any") *)
+  Definition connect_outcome (f : features) (e : Endpoint) (srv : server) : conn :=
+    if f_tls f && is_https (e_scheme e)
     then match e_tls e with
          | Some tls => tls_connect tls srv
          | None => ConnErr HttpsUriWithoutTlsSupport
@@ -241,21 +305,44 @@ Section Wiring.
     match e_tls e with Some t => tc_identity t | None => None end.
 
   (* ---------------------------------------------------------------- server side *)
-  (* ServerIoStream: a TLS listener only yields connections whose handshake completed
-     (TlsErr is logged and dropped); a plaintext listener yields every connection *)
-  Definition server_accepts (e : Endpoint) (srv : server) : hs_server :=
-    match srv, connect_outcome e srv with
-    | SPlain, ConnPlain => SrvAccept None
-    | STls a, ConnTls _ => rustls_accept a (endpoint_identity e)
-    | _, _ => SrvReject
+  (* What the listener's ServerIoStream yields for the connection, independently of what the
+     client does after ITS handshake returned (the H2NotNegotiated decision comes later):
+     a plaintext listener yields every connection; a TLS listener yields the connection iff
+     the rustls handshake completed on both sides (TlsErr is logged and dropped), which needs
+     the client to have started one *)
+  Definition server_handshake (f : features) (e : Endpoint) (srv : server) : hs_server :=
+    match srv with
+    | SPlain => SrvAccept None
+    | STls a =>
+        if f_tls f && is_https (e_scheme e)
+        then match e_tls e with
+             | Some t => match rustls_connect t srv with
+                         | HsOk _ => rustls_accept a (tc_identity t)
+                         | HsErr _ => SrvReject
+                         end
+             | None => SrvReject                      (* nothing was sent *)
+             end
+        else SrvReject                                (* plaintext bytes into a TLS acceptor *)
     end.
 
-  Definition request_reaches_handler (e : Endpoint) (srv : server) : bool :=
-    match server_accepts e srv with SrvAccept _ => true | SrvReject => false end.
+  (* a handler runs iff the listener yielded the connection AND a request was transmitted on
+     it in the protocol the listener speaks *)
+  Definition request_reaches_handler (f : features) (e : Endpoint) (srv : server) : bool :=
+    match server_handshake f e srv with
+    | SrvReject => false
+    | SrvAccept _ =>
+        match srv, connect_outcome f e srv with
+        | SPlain, ConnPlain => true
+        | STls _, ConnTls _ => true
+        | _, _ => false
+        end
+    end.
 
-  (* conn.rs: TlsConnectInfo { certs: session.peer_certificates() } *)
-  Definition peer_certs_exposed (e : Endpoint) (srv : server) : option cert :=
-    match server_accepts e srv with SrvAccept pc => pc | SrvReject => None end.
+  (* conn.rs: TlsConnectInfo { certs: session.peer_certificates() }, seen by a handler that runs *)
+  Definition peer_certs_exposed (f : features) (e : Endpoint) (srv : server) : option cert :=
+    if request_reaches_handler f e srv
+    then match server_handshake f e srv with SrvAccept pc => pc | SrvReject => None end
+    else None.
 
   (* request.rs: Request::peer_certs looks the extension up by the type
      TlsConnectInfo<TcpConnectInfo>; over any other IO type it answers None although
@@ -264,17 +351,21 @@ Section Wiring.
     if io_is_tcp then tls_info_certs else None.
 
   (* ---------------------------------------------------------------- observable of one call *)
-  Definition class_of (c : conn) (s : hs_server) : N :=
+  (* 2 = the peer aborted the handshake before the client's side completed (connect fails),
+     6 = the client's side completed (connect succeeds) and the peer then refused the
+     connection (TLS 1.3: the client certificate is judged after the client has finished) *)
+  Definition class_of (c : conn) (reached : bool) : N :=
     match c with
     | ConnErr HttpsUriWithoutTlsSupport => 1
-    | ConnErr (TlsHandshake EAlpnAbort) => 6     (* the peer aborts; not told apart from a refusal *)
+    | ConnErr (TlsHandshake EAlpnAbort) => 2
     | ConnErr (TlsHandshake EBadChain) => 3
+    | ConnErr (TlsHandshake EBadSignature) => 10
     | ConnErr (TlsHandshake EBadName) => 4
     | ConnErr H2NotNegotiated => 5
     | ConnErr (TlsHandshake ENotTls) => 8
     | ConnErr (TlsHandshake EOtherTls) => 9
-    | ConnTls _ => match s with SrvAccept _ => 0 | SrvReject => 6 end
-    | ConnPlain => match s with SrvAccept _ => 7 | SrvReject => 6 end
+    | ConnTls _ => if reached then 0 else 6
+    | ConnPlain => if reached then 7 else 6
     end.
 
   (* ---------------------------------------------------------------- what is assumed of rustls *)
@@ -307,8 +398,8 @@ Section Wiring.
     match c_domain c with Some d => Some d | None => uri_host end.
 
   (* first bytes the client puts on the raw pipe: 0 nothing, 1 TLS records, 2 plaintext HTTP/2 *)
-  Definition wire_of (e : Endpoint) : N :=
-    if is_https (e_scheme e)
+  Definition wire_of (f : features) (e : Endpoint) : N :=
+    if f_tls f && is_https (e_scheme e)
     then match e_tls e with Some _ => 1 | None => 0 end
     else 2.
 End Wiring.
@@ -323,6 +414,10 @@ Section Reference.
   Variable chain_ok : list ca -> cert -> bool.
   Variable name_ok : dname -> cert -> bool.
   Variable client_cert_ok : ca -> cert -> bool.
+  (* the certificate NAMES one of the roots as its issuer (whether or not it was really signed
+     by it): webpki then reports a signature error instead of an unknown issuer, which is how
+     the presence of a root in the store can be observed without a certificate it issued *)
+  Variable anchor_named : list ca -> cert -> bool.
 
   (* rustls server: no ALPN extension from the client, or no protocols configured: nothing is
      negotiated; otherwise the first of the server's protocols that the client offers, and a
@@ -344,7 +439,8 @@ Section Reference.
         match ref_negotiate (tc_alpn t) (a_alpn a) with
         | NegAbort => HsErr EAlpnAbort
         | n =>
-            if negb (chain_ok (tc_roots t) (a_cert a)) then HsErr EBadChain
+            if negb (chain_ok (tc_roots t) (a_cert a))
+            then HsErr (if anchor_named (tc_roots t) (a_cert a) then EBadSignature else EBadChain)
             else if negb (name_ok (tc_domain t) (a_cert a)) then HsErr EBadName
             else HsOk (match n with NegProto p => Some p | _ => None end)
         end
@@ -364,87 +460,114 @@ Section Reference.
 End Reference.
 
 (* ------------------------------------------------------------------ the finite test PKI *)
-Inductive caid := CA1 | CA2.                 (* CA1 issues the server certificates, CA2 is the client CA *)
+Inductive caid :=
+| CA1          (* issues the server certificates *)
+| CA2          (* the client CA *)
+| CAPublic     (* stands for the webpki-roots set: issues nothing in the test PKI *)
+| CAGarbage.   (* a "certificate" whose PEM contains no certificate at all *)
 Inductive dn := DExample | DOther | DBad.    (* "example.test", "other.test", not a DNS name *)
 Inductive certid :=
 | SrvExample      (* CA1, SAN example.test, serverAuth *)
 | SrvOther        (* CA1, SAN other.test,   serverAuth *)
 | CliCA2          (* CA2, clientAuth *)
-| CliCA1.         (* CA1, clientAuth *)
+| CliCA1          (* CA1, clientAuth *)
+| SrvFakePublic.  (* SAN example.test, names a CA of the webpki-roots set as issuer but is signed
+                     by a key of ours: no root store makes it valid *)
 
 Definition ca_eqb (a b : caid) : bool :=
-  match a, b with CA1, CA1 | CA2, CA2 => true | _, _ => false end.
+  match a, b with
+  | CA1, CA1 | CA2, CA2 | CAPublic, CAPublic | CAGarbage, CAGarbage => true
+  | _, _ => false
+  end.
 Definition dn_eqb (a b : dn) : bool :=
   match a, b with DExample, DExample | DOther, DOther | DBad, DBad => true | _, _ => false end.
-Definition issuer (c : certid) : caid :=
-  match c with SrvExample | SrvOther | CliCA1 => CA1 | CliCA2 => CA2 end.
+Definition issuer (c : certid) : caid :=          (* the issuer the certificate names *)
+  match c with SrvExample | SrvOther | CliCA1 => CA1 | CliCA2 => CA2 | SrvFakePublic => CAPublic end.
+Definition genuine (c : certid) : bool :=        (* ... and whether that issuer signed it *)
+  match c with SrvFakePublic => false | _ => true end.
 Definition san (c : certid) : option dn :=
-  match c with SrvExample => Some DExample | SrvOther => Some DOther | _ => None end.
+  match c with SrvExample | SrvFakePublic => Some DExample | SrvOther => Some DOther | _ => None end.
 Definition is_client_cert (c : certid) : bool :=
   match c with CliCA1 | CliCA2 => true | _ => false end.
 
 (* the certificate facts that instantiate the three predicates *)
-Definition t_chain_ok (roots : list caid) (c : certid) : bool := existsb (ca_eqb (issuer c)) roots.
+Definition t_anchor_named (roots : list caid) (c : certid) : bool := existsb (ca_eqb (issuer c)) roots.
+Definition t_chain_ok (roots : list caid) (c : certid) : bool := genuine c && t_anchor_named roots c.
 Definition t_name_ok (d : dn) (c : certid) : bool :=
   match san c with Some s => dn_eqb s d | None => false end.
 Definition t_client_cert_ok (root : caid) (c : certid) : bool :=
   is_client_cert c && ca_eqb (issuer c) root.
 Definition t_valid_name (d : dn) : bool := match d with DBad => false | _ => true end.
+Definition t_ca_usable (c : caid) : bool := match c with CAGarbage => false | _ => true end.
 
-(* the harness build: feature tls-ring only *)
-Definition t_features : features := {| f_native_roots := false; f_webpki_roots := false |}.
+(* the harness build: features tls-ring, tls-native-roots, tls-webpki-roots.  The platform's
+   root set is whatever SSL_CERT_FILE names (a parameter of every case); the webpki set is the
+   Mozilla list, which contains neither test CA *)
+Definition t_features : features :=
+  {| f_tls := true; f_native_roots := true; f_webpki_roots := true |}.
+Definition t_webpki : list caid := [CAPublic].
 
-Definition t_connect := ref_connect t_chain_ok t_name_ok.
+Definition t_connect := ref_connect t_chain_ok t_name_ok t_anchor_named.
 Definition t_accept := ref_accept t_client_cert_ok.
 
-Definition t_endpoint_tls (s : scheme) (h : option dn) (c : option (@ClientTlsConfig certid caid dn))
-    : cfg_err + @Endpoint certid caid dn :=
+Definition t_endpoint_tls (native : list caid) (s : scheme) (h : option dn)
+    (c : option (@ClientTlsConfig certid caid dn)) : cfg_err + @Endpoint certid caid dn :=
   match c with
   | None => inr (endpoint_from_uri s h)
-  | Some c => endpoint_tls_config t_valid_name [] [] t_features (endpoint_from_uri s h) c
+  | Some c => endpoint_tls_config t_valid_name native t_webpki t_features (endpoint_from_uri s h) c
   end.
 
 Definition t_outcome (e : @Endpoint certid caid dn) (srv : @server certid caid) :=
-  connect_outcome t_connect e srv.
-Definition t_srv_accepts (e : @Endpoint certid caid dn) (srv : @server certid caid) :=
-  server_accepts t_connect t_accept e srv.
+  connect_outcome t_connect t_features e srv.
+Definition t_srv_handshake (e : @Endpoint certid caid dn) (srv : @server certid caid) :=
+  server_handshake t_connect t_accept t_features e srv.
 Definition t_reaches (e : @Endpoint certid caid dn) (srv : @server certid caid) :=
-  request_reaches_handler t_connect t_accept e srv.
+  request_reaches_handler t_connect t_accept t_features e srv.
 Definition t_peer_certs (e : @Endpoint certid caid dn) (srv : @server certid caid) :=
-  peer_certs_exposed t_connect t_accept e srv.
+  peer_certs_exposed t_connect t_accept t_features e srv.
 
 (* ------------------------------------------------------------------ observables *)
 Definition cert_code (c : certid) : N :=
-  match c with SrvExample => 11 | SrvOther => 12 | CliCA2 => 1 | CliCA1 => 2 end.
+  match c with SrvExample => 11 | SrvOther => 12 | SrvFakePublic => 13 | CliCA2 => 1 | CliCA1 => 2 end.
 Definition cfg_err_code (e : cfg_err) : N :=
   match e with EInvalidUri => 1 | EInvalidDnsName => 2 | ENativeCertsNotFound => 3
              | EInvalidTlsConfigForUds => 4 end.
 
 (* [class; handler ran; Request::peer_certs seen by the handler; TlsConnectInfo certs in the
-    extensions; wire] *)
-Definition obs_of_call (io_is_tcp : bool) (e : @Endpoint certid caid dn) (srv : @server certid caid) : tr :=
+    extensions; wire].  [tls12]: the listener only speaks TLS 1.2, where the server judges the
+    client certificate before the client's handshake completes, so a refusal is seen by the
+    client as an aborted handshake (class 2) instead of a refusal after connecting (class 6) *)
+Definition obs_of_call (tls12 io_is_tcp : bool) (e : @Endpoint certid caid dn)
+    (srv : @server certid caid) : tr :=
   let c := t_outcome e srv in
-  let s := t_srv_accepts e srv in
+  let reached := t_reaches e srv in
   let pc := t_peer_certs e srv in
-  Nd [ Nn (class_of c s);
-       obool (t_reaches e srv);
+  let cl := class_of c reached in
+  let cl := match c with
+            | ConnTls _ => if tls12 && negb reached then 2 else cl
+            | _ => cl
+            end in
+  Nd [ Nn cl;
+       obool reached;
        oopt (fun x => Nn (cert_code x)) (request_peer_certs io_is_tcp pc);
        oopt (fun x => Nn (cert_code x)) pc;
-       Nn (wire_of e) ].
+       Nn (wire_of t_features e) ].
 
-(* a call through [Endpoint::from_shared(uri)] (+ optional [tls_config]) against a server *)
-Definition obs_call (io_is_tcp : bool) (s : scheme) (h : option dn)
+(* a call through [Endpoint::from_shared(uri)] (+ optional [tls_config]) against a server;
+   [native] = the certificates SSL_CERT_FILE names *)
+Definition obs_call (native : list caid) (io_is_tcp : bool) (s : scheme) (h : option dn)
     (c : option (@ClientTlsConfig certid caid dn)) (srv : @server certid caid) : tr :=
-  match t_endpoint_tls s h c with
+  match t_endpoint_tls native s h c with
   | inl e => tag 100 [Nn (cfg_err_code e)]
-  | inr ep => obs_of_call io_is_tcp ep srv
+  | inr ep => obs_of_call false io_is_tcp ep srv
   end.
 
 (* a call through [Endpoint::new(uri)] *)
-Definition obs_call_endpoint_new (s : scheme) (h : option dn) (srv : @server certid caid) : tr :=
-  match endpoint_new t_valid_name [] [] t_features s h with
+Definition obs_call_endpoint_new (native : list caid) (s : scheme) (h : option dn)
+    (srv : @server certid caid) : tr :=
+  match endpoint_new t_valid_name native t_webpki t_features s h with
   | inl e => tag 100 [Nn (cfg_err_code e)]
-  | inr ep => obs_of_call true ep srv
+  | inr ep => obs_of_call false true ep srv
   end.
 
 (* shorthands used by the generated case files *)
@@ -454,29 +577,39 @@ Definition mk_server_cfg (id : option certid) (client_ca : option caid) (optiona
   {| s_identity := id; s_client_ca_root := client_ca; s_client_auth_optional := optional |}.
 (* tonic's own TLS server for a configuration with an identity *)
 Definition mk_srv (id : certid) (client_ca : option caid) (optional : bool) : @server certid caid :=
-  match tls_acceptor (mk_server_cfg (Some id) client_ca optional) with
+  match tls_acceptor t_ca_usable (mk_server_cfg (Some id) client_ca optional) with
   | AccOk a => STls a
-  | AccPanic => SPlain
+  | _ => SPlain
   end.
 
-(* [Server::tls_config(cfg)]: 0 = panicked, 1 = acceptor built *)
+(* [Server::tls_config(cfg)]: 0 = panicked, 1 = acceptor built, 2 = Err *)
 Definition obs_acceptor (s : @ServerTlsConfig certid caid) : tr :=
-  match tls_acceptor s with
+  match tls_acceptor t_ca_usable s with
   | AccPanic => Nd [Nn 0]
   | AccOk _ => Nd [Nn 1]
+  | AccErr => Nd [Nn 2]
+  end.
+
+(* a call against the listener of [Server::builder()] after the builder calls [ops] *)
+Definition obs_call_built (native : list caid) (s : scheme) (h : option dn)
+    (c : option (@ClientTlsConfig certid caid dn)) (ops : list (@builder_op certid caid)) : tr :=
+  match server_build t_ca_usable server_builder ops with
+  | BuildPanic => tag 101 []
+  | BuildErr => tag 102 []
+  | BuildOk sv => obs_call native true s h c (server_listener sv)
   end.
 
 (* a bare rustls client offering [offers] against tonic's acceptor: 0 = aborted,
    1 = completed with the selected protocol *)
 Definition obs_negotiate (offers : list proto) (s : @ServerTlsConfig certid caid) : tr :=
-  match tls_acceptor s with
-  | AccPanic => Nd [Nn 99]
+  match tls_acceptor t_ca_usable s with
   | AccOk a =>
       match ref_negotiate offers (a_alpn a) with
       | NegAbort => Nd [Nn 0]
       | NegNone => Nd [Nn 1; Nd []]
       | NegProto p => Nd [Nn 1; Nd [Bs p]]
       end
+  | _ => Nd [Nn 99]
   end.
 
 (* ------------------------------------------------------------------ the matrix *)
@@ -537,8 +670,8 @@ Definition cell_server_cfg (x : cell) : @ServerTlsConfig certid caid :=
 (* ALPN h2 is tonic's own acceptor; the other two are the same rustls configuration with the
    protocol list replaced (tonic cannot be configured to produce them) *)
 Definition cell_server (x : cell) : option (@server certid caid) :=
-  match tls_acceptor (cell_server_cfg x) with
-  | AccPanic => None
+  match tls_acceptor t_ca_usable (cell_server_cfg x) with
+  | AccPanic | AccErr => None
   | AccOk a =>
       Some (STls (match x_alpn x with
                   | AlpnH2 => a
@@ -547,15 +680,22 @@ Definition cell_server (x : cell) : option (@server certid caid) :=
                   end))
   end.
 
+(* during the matrix the platform (SSL_CERT_FILE) trusts CA1, the CA of the server
+   certificates: no cell enables the platform roots, so this must not matter *)
+Definition cell_native : list caid := [CA1].
 Definition cell_endpoint (x : cell) : cfg_err + @Endpoint certid caid dn :=
-  t_endpoint_tls Https (Some (cell_host x)) (Some (cell_client_cfg x)).
+  t_endpoint_tls cell_native Https (Some (cell_host x)) (Some (cell_client_cfg x)).
 
-Definition obs_cell (x : cell) : tr :=
+Definition obs_cell_v (tls12 : bool) (x : cell) : tr :=
   match cell_server x, cell_endpoint x with
-  | Some srv, inr ep => obs_of_call true ep srv
+  | Some srv, inr ep => obs_of_call tls12 true ep srv
   | None, _ => tag 101 []
   | _, inl e => tag 100 [Nn (cfg_err_code e)]
   end.
+
+Definition obs_cell := obs_cell_v false.
+(* the same cell against a listener restricted to TLS 1.2 *)
+Definition obs_cell_tls12 := obs_cell_v true.
 
 (* operational verdicts of a cell *)
 Definition cell_served (x : cell) : bool :=
